@@ -3,6 +3,10 @@ import FhVerif.Spec.ByteClass
 namespace Fh.Driver
 open Fh Fh.Spec.NH Fh.Model.Adaptor
 
+/-- n bytes made of the pattern repeated (harness op 'R') -/
+def repeatTo (pat : Bytes) (n : Nat) : Bytes :=
+  ((List.replicate (n / pat.length + 1) pat).flatten).take n
+
 /-- decode a handler program from (opcode, a, b) triples; header names are canonicalised like http.Header does -/
 def decodeProg : List Bytes → Option (List HOp)
   | [] => some []
@@ -15,6 +19,7 @@ def decodeProg : List Bytes → Option (List HOp)
     | 'S' => some (HOp.set ck b :: tl)
     | 'D' => some (HOp.del ck :: tl)
     | 'B' => some (HOp.write a :: tl)
+    | 'R' => (natOfDec? b).map (fun n => HOp.write (repeatTo (if a.isEmpty then [120] else a) n) :: tl)
     | 'F' => some (HOp.flush :: tl)
     | _ => none
   | _ => none
